@@ -42,8 +42,8 @@ func (s *scLife) Configure(w *World) {
 	c.PreItems = t.Draw(4, nil)
 	c.ItemKinds = []string{"mut", "del", "exp", "sys:collcreate", "sys:scopecreate", "sys:collchanged"}
 	c.ItemKindW = []int{10, 3, 2, 1, 1, 1}
-	c.KeyClasses = []string{"plain", "conn", "txn", "partial"}
-	c.KeyClassW = []int{8, 2, 1, 1}
+	c.KeyClasses = []string{"plain", "conn", "txn", "partial", "embedded"}
+	c.KeyClassW = []int{8, 2, 1, 1, 1}
 	if t.Draw(3, nil) == 0 {
 		// filtered collection: the tail of a snapshot may be closed by seqno-advanced
 		c.ScopeName, c.CollectionNames, c.Collections = "s1", []string{"c1"}, []uint32{8, 8, 9}
@@ -123,7 +123,7 @@ func (s *scLife) Configure(w *World) {
 		if c.Faults {
 			c.W.ReplyErr = 2 // checkpoint writes answered with an error status: failed saves in the closed loop
 		}
-		c.KeyClassW = []int{6, 4, 3, 2}
+		c.KeyClassW = []int{6, 4, 3, 2, 2}
 		c.W.Crash = 0
 		s.maxRest = 0
 		c.QuiesceBudget = 15 * time.Second
